@@ -337,6 +337,28 @@ def obligations(tier, seed):
                         desc={"name": c11.show(ast), "rewrite": "path-bound-start", "text1": t3, "text2": t4, "vars1": ["s", "o"],
                               "vars2": ["s", "o"], "nconst": 1, "data": ["p", "q"]},
                         sig=[("x%d" % i, "i") for i in range(5)], budget=300))
+    # paths whose two ends are already bound when the pattern is evaluated vs bound afterwards (a path pattern yields one
+    # solution per route for / and |): VALUES before vs after the pattern, and a join with a plain pattern in both orders.
+    # Zero-length forms (*, ?) are left to the initbindings family, which carries the recorded finding for them.
+    for ast in c11.DEPTH1:
+        if ast[0] == "neg" and any(m.startswith("^") for m in ast[1]):
+            continue
+        if ast[0] == "mul" and ast[2] in "*?":
+            continue
+        ptxt = _path_text(ast)
+        c0, c1 = R.PLACEHOLDER % 0, R.PLACEHOLDER % 1
+        t5 = "SELECT ?s ?o WHERE { VALUES (?s ?o) { (<%s> <%s>) } ?s %s ?o }" % (c0, c1, ptxt)
+        t6 = "SELECT ?s ?o WHERE { ?s %s ?o VALUES (?s ?o) { (<%s> <%s>) } }" % (ptxt, c0, c1)
+        obs.append(dict(oid="rw/path-bound-both/%s" % c11.show(ast), family="rewrite",
+                        desc={"name": c11.show(ast), "rewrite": "path-bound-both", "text1": t5, "text2": t6, "vars1": ["s", "o"],
+                              "vars2": ["s", "o"], "nconst": 2, "data": ["p", "q"]},
+                        sig=[("x%d" % i, "i") for i in range(6)], budget=300))
+        t7 = "SELECT ?s ?o WHERE { { ?s <urn:p> ?o } { ?s %s ?o } }" % ptxt
+        t8 = "SELECT ?s ?o WHERE { { ?s %s ?o } { ?s <urn:p> ?o } }" % ptxt
+        obs.append(dict(oid="rw/path-join-swap/%s" % c11.show(ast), family="rewrite",
+                        desc={"name": c11.show(ast), "rewrite": "path-join-swap", "text1": t7, "text2": t8, "vars1": ["s", "o"],
+                              "vars2": ["s", "o"], "nconst": 0, "data": ["p", "q"]},
+                        sig=[("x%d" % i, "i") for i in range(4)], budget=300))
     # 4b. the public route Graph.query(text, initNs=...): one text under two different namespaces for the same prefix name, in
     #     sequence on one graph (translation must not be carried over from one call to the next)
     PT = {"bgp": ("SELECT ?s ?o WHERE { ?s x:p ?o }", ["s", "o"]),
